@@ -125,6 +125,22 @@ struct Subject {
     family: Option<&'static str>,
 }
 
+/// Hint used for the reference read: the asset's nominal format if it belongs to the family the magic
+/// identifies, otherwise that family's plain extension (e.g. a truncated ID3-prefixed FLAC is, by its
+/// leading bytes, an ID3/MP3 stream).
+fn ref_hint(s: &Subject) -> &'static str {
+    match s.family {
+        Some(f) if hint_family(s.true_fmt) != f => match f {
+            "jpeg" => "jpg",
+            "tiff" => "tif",
+            "riff" => "wav",
+            "bmff" => "mp4",
+            other => other,
+        },
+        _ => s.true_fmt,
+    }
+}
+
 fn read_choppy(hint: &str, bytes: &[u8], seed: u64, max_chunk: usize) -> report::Outcome {
     iokit::read_stream(ctx(), hint, Shim::new(Cursor::new(bytes.to_vec()), Mode::Choppy { max_chunk, interrupt_every: 0 }, seed))
 }
@@ -288,12 +304,12 @@ fn main() {
 
     // ---------------- work list
     // reference outcomes (true hint, in memory)
-    let refs: Vec<report::Outcome> = par::par_map(subjects.len(), |i| iokit::read_mem(ctx(), subjects[i].true_fmt, &subjects[i].bytes));
+    let refs: Vec<report::Outcome> = par::par_map(subjects.len(), |i| iokit::read_mem(ctx(), ref_hint(&subjects[i]), &subjects[i].bytes));
     // short-read delivery is compared against the *same delivery* under the true hint, so that only the
     // hint varies (whether short reads by themselves change a result is C35's question)
     let chunk_of = |si: usize| [1usize, 2, 3, 7, 15][si % 5];
     let seed = run.seed;
-    let refs_choppy: Vec<report::Outcome> = par::par_map(subjects.len(), |i| read_choppy(subjects[i].true_fmt, &subjects[i].bytes, seed ^ (i as u64), chunk_of(i)));
+    let refs_choppy: Vec<report::Outcome> = par::par_map(subjects.len(), |i| read_choppy(ref_hint(&subjects[i]), &subjects[i].bytes, seed ^ (i as u64), chunk_of(i)));
     let mut work: Vec<(usize, usize, &'static str)> = Vec::new();
     for (si, s) in subjects.iter().enumerate() {
         let big = s.bytes.len() > 60_000;
